@@ -10,12 +10,13 @@ from pytenet.opgraph import OpGraph
 RULE = ('start graphs: (tiny) complete enumeration of the smallest layered graphs (length 1; length 2 and 3 with interior width 1; '
         'length 2 width 2 on a 2-entry operator-sum menu), (rand) seeded random layered graphs built from OpGraphNode/OpGraphEdge '
         '(length<=3, width<=wmax, <=2 parallel edges, operator sums with 1-2 ids incl. cancelling coefficients, node charges {0,1}, '
-        'every node on a terminal-to-terminal path), (dang) the same with dangling nodes, (chains)/(trees) graphs returned by '
+        'every node on a terminal-to-terminal path), (fuse) sparse ones over a 1-2 entry menu with width<=wmax+1 (many fusable node pairs), (dang) the same with dangling nodes, (chains)/(trees) graphs returned by '
         'from_opchains / from_optrees; each start graph x rewrite kind {simplify, merge (every mergeable ordered pair, both '
         'directions, both branches), rename (every node and edge to fresh and arbitrary free ids), flip, add (id assignments of '
         'the second graph from a range colliding with the first: all injective node assignments if <=60 else sampled, plus '
         'special ones), seq (<=4 random rewrites)}; non-trivial = graph with >=2 edges; distinct = distinct (graph, kind, ids)')
-BOUNDS = {'quick': 'length<=3, width<=2, ~1300 start graphs x 6 rewrite kinds', 'thorough': 'length<=3, width<=3, ~17000 start graphs x 6 rewrite kinds'}
+BOUNDS = {'quick': 'length<=3, width<=2 (fuse class <=3), ~1560 start graphs x 6 rewrite kinds; tiny classes of length 3 / width 2 subsampled (150 / 250)',
+          'thorough': 'length<=3, width<=3 (fuse class <=4), ~22800 start graphs x 6 rewrite kinds; tiny classes complete'}
 EXHAUSTIVE = {'quick': False, 'thorough': False}
 
 KINDS = ('simplify', 'merge', 'rename', 'flip', 'add', 'seq')
@@ -42,6 +43,10 @@ def start_graphs(tier, rng):
     for r in range(450 if quick else 9000):
         length = int(rng.integers(1, 4))
         yield 'rand', dict(graph=hg.rand_layered_graph(rng, length, wmax))
+    for r in range(200 if quick else 3000):
+        # sparse graphs over a 1-2 entry menu: many node pairs that satisfy the fusion preconditions of merge_edges
+        yield 'fuse', dict(graph=hg.rand_layered_graph(rng, int(rng.integers(2, 4)), wmax + 1, menu_size=int(rng.integers(1, 3)),
+                                                        charges=(0,) if r % 2 else (0, 1), pdens=0.2))
     for r in range(60 if quick else 1000):
         yield 'dang', dict(graph=hg.rand_layered_graph(rng, int(rng.integers(2, 4)), wmax, dangling=True))
     for r in range(120 if quick else 2000):
@@ -173,8 +178,10 @@ class Checker:
             self.fails[-1]['signature'] = f'OpGraph.{fn}:returns:{name}{self.extra}{self.qual}'
             return False
 
-    def after(self, fn, g, expected, what=''):
-        """polynomial and consistency after a rewrite; returns False if the graph cannot be used any further"""
+    def after(self, fn, g, expected, what='', expected_q=None):
+        """polynomial and consistency after a rewrite; returns False if the graph cannot be used any further.
+        expected_q: charge-refined polynomial (operator together with the node quantum numbers along every path); only
+        examined when the plain polynomial is as expected (clause 'charges': nodes of different charge were fused)"""
         try:
             p = hg.graph_poly(g)
         except hg.Malformed as e:
@@ -182,6 +189,8 @@ class Checker:
             return False
         if not hg.p_eq(p, expected):
             self.fail(fn, 'polynomial', f'after {fn}{what}: [[graph]] - expected = {hg.p_diff(p, expected)}')
+        elif expected_q is not None and not hg.p_eq(hg.graph_poly(g, charges=True), expected_q):
+            self.fail(fn, 'charges', f'after {fn}{what}: the operator is preserved but the node quantum numbers along some path changed')
         try:
             ok = g.is_consistent()
         except Exception as e:
@@ -215,12 +224,18 @@ def run_case(c):
     if g is None:
         return dict(failures=[], nontrivial=False, key=key)
     nontrivial = len(g.edges) >= 2
-    p0 = hg.graph_poly(g)        # Malformed start graph = harness/generator error or a constructor defect reported by C05/C17
+    try:
+        p0 = hg.graph_poly(g)
+        q0 = hg.graph_poly(g, charges=True)
+    except hg.Malformed:
+        if 'graph' in src:
+            raise                # a hand-built start graph must be well-formed: generator error
+        return dict(failures=[], nontrivial=False, key=key)      # defect of from_opchains / from_optrees: reported by C05 / C17
 
     if kind == 'simplify':
         nn, ne = len(g.nodes), len(g.edges)
         if ck.call('simplify', g.simplify):
-            ck.after('simplify', g, p0)
+            ck.after('simplify', g, p0, '', q0)
             if len(g.nodes) > nn or len(g.edges) > ne:
                 ck.fail('simplify', 'no_growth', f'nodes {nn}->{len(g.nodes)}, edges {ne}->{len(g.edges)}')
 
@@ -233,7 +248,7 @@ def run_case(c):
             h = build_source(src)
             ck.extra = f':{branch}'
             if ck.call('merge_edges', lambda: h.merge_edges(e1, e2, direction)):
-                ck.after('merge_edges', h, p0, f'({e1},{e2},{direction}) [{branch}]')
+                ck.after('merge_edges', h, p0, f'({e1},{e2},{direction}) [{branch}]', q0)
             if ck.fails:
                 break
 
@@ -266,20 +281,23 @@ def run_case(c):
     elif kind == 'flip':
         t = list(g.nid_terminal)
         if ck.call('flip', g.flip):
-            ck.after('flip', g, hg.p_flip(p0))
+            ck.after('flip', g, hg.p_flip(p0), '', hg.pq_flip(q0))
             if list(g.nid_terminal) != t[::-1]:
                 ck.fail('flip', 'terminals', f'terminals {t} -> {g.nid_terminal}')
             if ck.call('flip', g.flip):
-                ck.after('flip', g, p0, ' twice')
+                ck.after('flip', g, p0, ' twice', q0)
 
     elif kind == 'add':
+        qn = {n[0]: n[1] for n in c['other']['nodes']}
+        same_tq = [qn[t] for t in c['other']['term']] == [g.nodes[t].qnum for t in g.nid_terminal]
         for k in range(len(c['ids'])):
             h = build_source(src)
             o = build_other(c, k)
             po = hg.graph_poly(o)
+            qo = hg.graph_poly(o, charges=True)
             dump = hg.graph_dump(o)
             if ck.call('add', lambda: h.add(o)):
-                ck.after('add', h, hg.p_add(p0, po), f' ids={c["ids"][k]}')
+                ck.after('add', h, hg.p_add(p0, po), f' ids={c["ids"][k]}', hg.p_add(q0, qo) if same_tq else None)
             if hg.graph_dump(o) != dump:
                 ck.fail('add', 'other_untouched', f'the added graph was modified, ids={c["ids"][k]}')
             if ck.fails:
@@ -287,6 +305,8 @@ def run_case(c):
 
     elif kind == 'seq':
         expected = p0
+        eq = q0
+        qn = {n[0]: n[1] for n in c['other']['nodes']}
         steps = []
         for step in range(int(rng.integers(2, 5))):
             op = str(rng.choice(['simplify', 'merge', 'rename_node', 'rename_edge', 'flip', 'add']))
@@ -300,33 +320,38 @@ def run_case(c):
             what = ' in sequence ' + '>'.join(steps)
             if op == 'simplify':
                 nn, ne = len(g.nodes), len(g.edges)
-                if not ck.call('simplify', g.simplify) or not ck.after('simplify', g, expected, what):
+                if not ck.call('simplify', g.simplify) or not ck.after('simplify', g, expected, what, eq):
                     break
                 if len(g.nodes) > nn or len(g.edges) > ne:
                     ck.fail('simplify', 'no_growth', f'nodes {nn}->{len(g.nodes)}, edges {ne}->{len(g.edges)}{what}')
             elif op == 'merge':
-                if not ck.call('merge_edges', lambda: g.merge_edges(e1, e2, direction)) or not ck.after('merge_edges', g, expected, what):
+                if not ck.call('merge_edges', lambda: g.merge_edges(e1, e2, direction)) or not ck.after('merge_edges', g, expected, what, eq):
                     break
             elif op == 'rename_node':
                 nid = sorted(g.nodes)[int(rng.integers(len(g.nodes)))]
                 new = free_id(rng, g.nodes.keys(), str(rng.choice(['fresh', 'neg', 'any'])))
-                if not ck.call('rename_node_id', lambda: g.rename_node_id(nid, new)) or not ck.after('rename_node_id', g, expected, what):
+                if not ck.call('rename_node_id', lambda: g.rename_node_id(nid, new)) or not ck.after('rename_node_id', g, expected, what, eq):
                     break
             elif op == 'rename_edge':
                 eid = sorted(g.edges)[int(rng.integers(len(g.edges)))]
                 new = free_id(rng, g.edges.keys(), str(rng.choice(['fresh', 'neg', 'any'])))
-                if not ck.call('rename_edge_id', lambda: g.rename_edge_id(eid, new)) or not ck.after('rename_edge_id', g, expected, what):
+                if not ck.call('rename_edge_id', lambda: g.rename_edge_id(eid, new)) or not ck.after('rename_edge_id', g, expected, what, eq):
                     break
             elif op == 'flip':
                 expected = hg.p_flip(expected)
-                if not ck.call('flip', g.flip) or not ck.after('flip', g, expected, what):
+                eq = hg.pq_flip(eq) if eq is not None else None
+                if not ck.call('flip', g.flip) or not ck.after('flip', g, expected, what, eq):
                     break
             elif op == 'add':
                 o = build_other(c, 0)
                 po = hg.graph_poly(o)
                 dump = hg.graph_dump(o)
                 expected = hg.p_add(expected, po)
-                if not ck.call('add', lambda: g.add(o)) or not ck.after('add', g, expected, what):
+                if eq is not None and [qn[t] for t in c['other']['term']] == [g.nodes[t].qnum for t in g.nid_terminal]:
+                    eq = hg.p_add(eq, hg.graph_poly(o, charges=True))
+                else:
+                    eq = None       # terminal charges of the two graphs differ (after a flip): charge paths of the sum are not defined
+                if not ck.call('add', lambda: g.add(o)) or not ck.after('add', g, expected, what, eq):
                     break
                 if hg.graph_dump(o) != dump:
                     ck.fail('add', 'other_untouched', f'the added graph was modified{what}')
